@@ -776,7 +776,11 @@ def again_failures(I, prefixes=("", "rt.")):
         v = I.get(p + "again_same")
         if v is not None and v != "true":
             parts = v.split(":", 2)
-            how = "a second call on the same parsed value" if len(parts) > 1 and parts[1] == "B" else "calling the accessors in another order on a fresh parse"
+            which = parts[1] if len(parts) > 1 else "?"
+            if which == "D":
+                out.append(f"{p}a clone() of the parsed view answers `{parts[2] if len(parts) > 2 else '?'}` differently from the view it was made from")
+                continue
+            how = "a second call on the same parsed value" if which == "B" else "calling the accessors in another order on a fresh parse"
             out.append(f"{p}accessor results depend on call history: {how} changes `{parts[2] if len(parts) > 2 else '?'}`")
     return out
 
